@@ -127,7 +127,16 @@ func guard(c *Ctx, what string, detail func() any, f func()) (panicked bool) {
 func runC05(c *Ctx) {
 	r := c.R
 	ics := gen.ICSets[r.Intn(len(gen.ICSets))]
-	s := NewSys(ics, r.Chance(1, 3), r.Chance(1, 4))
+	var extra []mux.Option
+	switch r.Intn(4) { // option combinations: CORS (allow-all / origin list), recovery off (a panic must stay visible)
+	case 0:
+		extra = append(extra, mux.WithAllowedCORS(3600))
+	case 1:
+		extra = append(extra, mux.WithCORS([]string{"https://a.example"}, []string{"X-A"}, []string{"X-B"}, 10, true))
+	case 2:
+		extra = append(extra, mux.WithDenyCORS(), mux.WithURLDomain("https://x.io/"))
+	}
+	s := NewSys(ics, r.Chance(1, 3), r.Chance(1, 4), extra...)
 	pool := gen.Hostile.Table(r, r.Range(4, 24))
 	var ops []opRec
 	for i := r.Range(4, 30); i > 0; i-- {
@@ -170,8 +179,14 @@ func runC05(c *Ctx) {
 	// (1) requests with arbitrary bytes against the table reached by the history
 	for k := 0; k < 40 && !c.Violated(); k++ {
 		q := mon.Req{Method: ref.Pick(r, hostileMethods), Path: hostilePath(r, livePats), Host: hostileHost(r)}
-		if r.Chance(1, 3) {
+		switch r.Intn(4) {
+		case 0:
 			q.Header = map[string]string{"Accept": string(r.Bytes(r.Range(0, 30))), "Origin": string(r.Bytes(5))}
+		case 1: // preflight-shaped, also on paths that match nothing and with garbage in the CORS request headers
+			q.Method = ref.Pick(r, []string{"OPTIONS", "OPTIONS", "GET", "options"})
+			q.Header = map[string]string{"Origin": ref.Pick(r, []string{"https://a.example", "null", "", string(r.Bytes(4))}),
+				"Access-Control-Request-Method":  ref.Pick(r, []string{"GET", "DELETE", "", "get", string(r.Bytes(3)), "*"}),
+				"Access-Control-Request-Headers": ref.Pick(r, []string{"", "X-A", "x-a, ,", ",", string(r.Bytes(6))})}
 		}
 		o := mon.Do(s.R, q)
 		c.Eval()
